@@ -58,7 +58,7 @@ pub(crate) fn get_modifiers(modifier: u8) -> Modifiers {
 pub(crate) fn read(file: &mut File) -> Vec<u8> {
     let len = file.metadata().map(|m| m.len() + 1).unwrap();
     let mut buf = Vec::with_capacity(len as usize);
-    file.read_to_end(&mut buf).unwrap();
+    file.read_to_end(&mut buf).ok();
     buf
 }
 
